@@ -550,7 +550,9 @@ class ArgumentParser(ParserDeprecations, ActionsContainer, ArgumentLinking, argp
                 if env_val in action.choices:
                     cfg[action.dest] = subcommand = self._check_value_key(action, env_val, action.dest, cfg)
                     # only what the environment gives: the subcommand's defaults are merged below everything else later
-                    pcfg = action._name_parser_map[env_val].parse_env(env=env, defaults=False, _skip_validation=True)
+                    subparser = action._name_parser_map[env_val]
+                    with parser_context(load_value_mode=subparser.parser_mode):
+                        pcfg = subparser._load_env_vars(env=env, defaults=False)
                     for k, v in vars(pcfg).items():
                         cfg[subcommand + "." + k] = v
         for action in actions:
